@@ -24,6 +24,7 @@ type Spec struct {
 	Tapes    [][]Entry `json:"tapes"` // replay mode: execute exactly these tapes
 	Verbose  bool      `json:"verbose"`
 	KeepTape bool      `json:"keep_tape"`
+	MaxRuns  int       `json:"max_runs"` // stop after this many runs (the driver starts a fresh process for the rest)
 }
 
 type Result struct {
